@@ -381,6 +381,11 @@ func routerSession1(r *rand.Rand, k routerKnobs, emit Emit) {
 		}
 		if r.Intn(60) == 0 {
 			text = pick(r, []string{"", "a", "/a b", "/{", "/{x", "/a//b", "/{x}{", "/a?b", "/{x:}", "//", "/?", "/a/?"})
+		} else if r.Intn(30) == 0 && len(text) > 0 {
+			// one byte of punctuation dropped into an otherwise well-formed text (also a purely static one): inside or
+			// outside the grammar is the parser's decision, byte by byte (`,` `;` `=` are not identifier bytes, `$` `~` are)
+			i := r.Intn(len(text) + 1)
+			text = text[:i] + pick(r, []string{",", ";", "=", "!", "~", "@", "&", "'", "$", "%", " ", "+", "*", "(", ")", "|", "^", "\\", "\"", "<", "#"}) + text[i:]
 		}
 		emit("ADD %d %s %s %s", i, ms, hx(text), wireOfText(text))
 		routes = append(routes, rt)
